@@ -26,8 +26,16 @@ const prop = "C06"
 
 type engine struct{}
 
+//go:norace
 func (engine) Name() string { return "logbatch" }
 
+// RaceProps: a quarter of the workers run the race-detector build of this engine (DESIGN.md §2.11); a data
+// race between two accesses of the code under test is reported under these properties.
+//
+//go:norace
+func (engine) RaceProps() []string { return []string{"C06"} }
+
+//go:norace
 func TestWorker(t *testing.T) { simdrv.Worker(t, engine{}) }
 
 type recInfo struct {
@@ -69,6 +77,7 @@ type world struct {
 
 type exporter struct{ w *world }
 
+//go:norace
 func (x *exporter) Export(ctx context.Context, records []sdklog.Record) error {
 	w := x.w
 	c := &exportCall{beg: w.sim.Stamp()}
@@ -130,6 +139,7 @@ func (x *exporter) Export(ctx context.Context, records []sdklog.Record) error {
 	return err
 }
 
+//go:norace
 func (x *exporter) Shutdown(ctx context.Context) error {
 	w := x.w
 	w.sdCalls++
@@ -139,6 +149,7 @@ func (x *exporter) Shutdown(ctx context.Context) error {
 	return err
 }
 
+//go:norace
 func (x *exporter) ForceFlush(ctx context.Context) error {
 	w := x.w
 	w.r.Log("%d exporter-forceflush task=%s", w.sim.Stamp(), w.sim.CurrentTask())
@@ -152,6 +163,7 @@ func (x *exporter) ForceFlush(ctx context.Context) error {
 // mutator is a processor registered after the batch processor: it changes the SDK record it is given.
 type mutator struct{}
 
+//go:norace
 func (mutator) OnEmit(_ context.Context, r *sdklog.Record) error {
 	r.AddAttributes(log.String("x4", "MUT"), log.String("x5", "MUT"), log.String("who", "MUT")) // in-place overwrite of existing keys
 	r.SetBody(log.StringValue("MUTATED-BY-NEXT-PROCESSOR"))
@@ -160,7 +172,11 @@ func (mutator) OnEmit(_ context.Context, r *sdklog.Record) error {
 	r.AddAttributes(log.Int("seq", -7), log.String("x1", "y"), log.String("x2", "y"), log.String("x3", "y"), log.String("x4", "y"), log.String("x5", "y"), log.String("x6", "y"))
 	return nil
 }
-func (mutator) Shutdown(context.Context) error   { return nil }
+
+//go:norace
+func (mutator) Shutdown(context.Context) error { return nil }
+
+//go:norace
 func (mutator) ForceFlush(context.Context) error { return nil }
 
 type step struct {
@@ -178,6 +194,7 @@ type opPlan struct {
 	ctxD  time.Duration
 }
 
+//go:norace
 func (engine) Body(r *simdrv.Run) {
 	w := &world{r: r, recs: map[string]*recInfo{}}
 	times := []time.Duration{time.Millisecond, 10 * time.Millisecond, time.Second, 5 * time.Second, 30 * time.Second}
@@ -370,6 +387,8 @@ func (engine) Body(r *simdrv.Run) {
 }
 
 // readDropped reads the queue's not-yet-reported drop counter through reflection (no hook in /repo).
+//
+//go:norace
 func readDropped(bp *sdklog.BatchProcessor) (uint64, bool) {
 	v := reflect.ValueOf(bp).Elem().FieldByName("q")
 	if !v.IsValid() || v.Kind() != reflect.Pointer || v.IsNil() {
@@ -388,6 +407,7 @@ func readDropped(bp *sdklog.BatchProcessor) (uint64, bool) {
 	return d.Uint(), true
 }
 
+//go:norace
 func (w *world) oracle(dropped uint64, haveDropped bool) {
 	r := w.r
 	firstSd := simdrv.FirstShutdownInv(w.ops)
@@ -528,6 +548,7 @@ func (w *world) oracle(dropped uint64, haveDropped bool) {
 	}
 }
 
+//go:norace
 func (w *world) pendingEmits() int {
 	n := 0
 	for _, id := range w.order {
